@@ -16,9 +16,9 @@ func propInfo(prop string) propMeta {
 
 var propTable = map[string]propMeta{
 	"C01": {Level: "proof", Explanation: "Simulation proof: the concrete state of the oj Validator after every byte is related (VRel) to the state of the RFC 8259 specification automaton spec.Step after the same prefix, for every mode table cell, byte, container stack and fast path; the buffer function's postcondition gives accept/reject and the entry point Validate proves err == nil <=> spec accepts the whole text (optional BOM), from an arbitrary prior Validator state. Lemma ErrAbsorbing (by induction) connects the first error to rejection of the whole text.",
-		NotCovered: "gen.Parser and the sen front-ends are not under contract (DESIGN.md); oj.Tokenizer (tokenizeBuffer, Parse, Load) is covered like the Validator plus number-buffer safety; oj.Parser is covered for acceptance, positions and build-stack safety (parseBuffer simulation PRel, Parse and ParseReader entry points, option-less calls); the spec automaton is validated against encoding/json, not proved"},
+		NotCovered: "the sen front-ends are not under contract (DESIGN.md); gen.Parser (parseBuffer, add, Parse, ParseReader) is covered by the oj.Parser contract restated over gen.Node; oj.Tokenizer (tokenizeBuffer, Parse, Load) is covered like the Validator plus number-buffer safety; oj.Parser is covered for acceptance, positions and build-stack safety (parseBuffer simulation PRel, Parse and ParseReader entry points, option-less calls); the spec automaton is validated against encoding/json, not proved"},
 	"C03": {Level: "other", Explanation: "Chunking independence of oj.Parser.ParseReader: the reader loop is verified against a ghost stream R delivered in arbitrary pieces by an arbitrary io.Reader (assumed: 0 <= n <= len(p)); the loop invariant relates the Parser after every buffer to the specification automaton after the same prefix of the stream (the relation proved for parseBuffer), so err == nil implies the specification accepts the delivered stream and a ParseError carries the specification's first-error position, neither depending on where the buffers were cut. oj.Parser.Parse has the same postcondition over the same specification, which is the agreement point between the []byte and the reader front-end.",
-		NotCovered: "value trees (only acceptance, positions and the build-stack shape are specified, not the payload of strings and numbers), gen.Parser and the sen front-ends, multi-document mode of the Parser; oj.Tokenizer.Load is covered like ParseReader; known finding: a BOM split over short first reads"},
+		NotCovered: "value trees (only acceptance, positions and the build-stack shape are specified, not the payload of strings and numbers), the sen front-ends, multi-document mode of the parsers; oj.Tokenizer.Load and gen.Parser.ParseReader are covered like oj.Parser.ParseReader; known finding: a BOM split over short first reads"},
 	"C12": {Level: "other", Explanation: "Totality of script evaluation: jp.evalStack (every operator x operand-kind cell of the prefix-notation evaluator) and jp.normalize are executed symbolically for arbitrary operand values; every implicit runtime-fault obligation is discharged, among them '== on interface values whose dynamic type is not comparable' (the obligation that failed before fix e7804e5), index and slice bounds of the operand window, type assertions, division by zero.",
 		NotCovered: "the truth value of each cell (only absence of faults is specified), evalWithRoot/expandStack (sub-path resolution and multi-value expansion), parsing and printing of scripts; same() is trusted (reflect)"},
 	"C19": {Level: "other", Explanation: "Totality of alt.Diff/Compare/Match: the difference recursion diff, Match and their helpers (asInt, asFloat, ignoreIndex, ignoreKey) are executed symbolically with thin contracts for arbitrary values on both sides and arbitrary ignore paths (recursive calls by contract); every implicit runtime-fault obligation (index, slice bounds, nil map, type assertion) is discharged. The interface-header comparison through unsafe.Pointer is modelled as a function of the interface value (A-UNSAFE).",
